@@ -20,9 +20,9 @@ from .. import rowgen as G
 from .. import rowlib as R
 
 MANIFEST = dict(
-    text="Proof: Lean theorem parse_unparse — parse_row(unparse_row(m, layout)) = m over a hand model of RowParser + CellParser — for EVERY row model whose field types are built, to any nesting depth, from str/int/float/bool, untyped lists, List[T] and sub-records (lists of lists, lists of records holding lists and records, records in records, …) and whose remap tables are consistent at every level (decidable side condition goodTop: names and headers are distinct header segments, header_name_to_field_name undoes field_name_to_header_name), for every representable value (unbounded strings, integers, list lengths, numbers of fields; default elision/restoration) and EVERY layout that is LayoutOk for the value: each position independently spread over one column per leaf or written as one cell (target headers with * or concrete indices, or forced by a remapped field), a one-cell position having a type within the two-level limit (packTy, proved ≤ depth 2), spread positions nesting arbitrarily. Top-level header remaps are covered through RemapConsistent (header_name_to_field_name_with_context leads back to the written field). Instance flow_row_roundtrip: the real FlowRowModel (Edge with from_↔from, nested Condition, Webhook with untyped headers, WhatsAppTemplating with a list, node_uuid/_nodeId …, message_text ↦ row_type_to_main_arg[type]) — its schema and all remap dictionaries are tied to the source by T1 theorems (tables_agree_*), flowRowSchema_in_family and every side condition on the tables are discharged by `decide` on those tables, the only value-level hypothesis is flowMainOk (the field written under message_text is the main argument of the row's type). Proved by structural induction on the schema type (no bounds); int(str(i)) = i proved; every hypothesis has a kernel-checked negative witness that is replayed on the real code. The model is tied to the code by differential runs over dynamically created pydantic row models (fixed + random schemas + FlowRowModel) × all target-header subsets (≤ 64, sampled beyond) × strings over | ; \\ space newline , \" é 日 1 0 true and field-name-shaped strings, on the intermediate dict and on the parsed value; the theorem's own hypotheses (goodTop, Representable, LayoutOk, RemapConsistent) are evaluated by the Lean driver for every case and the round trip is demanded of the real code whenever they hold; also through real csv/xlsx files.",
+    text="Proof: Lean theorem parse_unparse — parse_row(unparse_row(m, layout)) = m over a hand model of RowParser + CellParser — for EVERY row model whose field types are built, to any nesting depth, from str/int/float/bool, untyped lists, List[T] and sub-records (lists of lists, lists of records holding lists and records, records in records, …) and whose remap tables are consistent at every level (decidable side condition goodTop: names and headers are distinct header segments, header_name_to_field_name undoes field_name_to_header_name), for every representable value (unbounded strings, integers, list lengths, numbers of fields; default elision/restoration) and EVERY layout that is LayoutOk for the value: each position independently spread over one column per leaf or written as one cell (target headers with * or concrete indices, or forced by a remapped field), a one-cell position having a type within the two-level limit (packTy, proved ≤ depth 2), spread positions nesting arbitrarily. Top-level header remaps are covered through RemapConsistent (header_name_to_field_name_with_context leads back to the written field). Instance flow_row_roundtrip: the real FlowRowModel (Edge with from_↔from, nested Condition, Webhook with untyped headers, WhatsAppTemplating with a list, node_uuid/_nodeId …, message_text ↦ row_type_to_main_arg[type]) — its schema and all remap dictionaries are tied to the source by T1 theorems (tables_agree_*), flowRowSchema_in_family and every side condition on the tables are discharged by `decide` on those tables, the only value-level hypothesis is flowMainOk (the field written under message_text is the main argument of the row's type). Proved by structural induction on the schema type (no bounds); int(str(i)) = i proved; every hypothesis has a kernel-checked negative witness that is replayed on the real code. The model is tied to the code by differential runs over dynamically created pydantic row models (fixed + random schemas + FlowRowModel) × all target-header subsets (≤ 64, sampled beyond) × strings over | ; \\ space newline , \" é 日 1 0 true and field-name-shaped strings, on the intermediate dict and on the parsed value; the theorem's own hypotheses (goodTop, Representable, LayoutOk, RemapConsistent) are evaluated by the Lean driver for every case and the round trip is demanded of the real code whenever they hold; also through real csv/xlsx files. The CSV file clause has its own theorems (Props/C07_File.lean): the text RowDataSheet.export(csv) writes is modelled (Csv.rdsExportCsv = tablib's csv.writer text with every CR removed; tied by exact comparison with the bytes of every written file) and rds_csv_reads_back_without_cr proves that for EVERY grid of cells within the reader's field limit the csv.reader model reads back the grid with the carriage returns removed from each cell and nothing else changed; rds_csv_roundtrip_iff: the file route is the identity iff no cell holds a CR (the other half is known finding F-C07-b, with a deterministic stream).",
     ref="§5 C07",
-    note="Trusts: Lean kernel (axioms audited each run), the differential harness and Driver JSON codec, pydantic v1 (field order, defaults, ==), CPython str()/int()/float() as modelled (float is an abstract codec carrying repr(x)), tablib/csv/openpyxl for the file route. The first-round statement with the static Admissible (list index 1 standing for every index) is kept visible as C07_static_statement and proved FALSE (target items.2 on a list of records holding lists): the general theorem checks the layout along the value (LayoutOk). Representable now counts an empty untyped list inside List[list] as a blank element (it leaves no cell). Known finding F-C04-d (spread untyped list of lists) is excluded by LayoutOk and exercised separately. Templates ('{') and excluded_headers are outside the domain.",
+    note="Trusts: Lean kernel (axioms audited each run), the differential harness and Driver JSON codec, pydantic v1 (field order, defaults, ==), CPython str()/int()/float() as modelled (float is an abstract codec carrying repr(x)), tablib/csv/openpyxl for the file route. The first-round statement with the static Admissible (list index 1 standing for every index) is kept visible as C07_static_statement and proved FALSE (target items.2 on a list of records holding lists): the general theorem checks the layout along the value (LayoutOk). Representable now counts an empty untyped list inside List[list] as a blank element (it leaves no cell). Known finding F-C04-d (spread untyped list of lists) is excluded by LayoutOk and exercised separately. Known finding F-C07-b (RowDataSheet.export(csv) removes the carriage returns inside cells) has a stream of in-domain values with CR / CRLF inside a string: each must come back intact (then nothing is printed) or exactly without its CRs; the other file cases are CR-free. Templates ('{') and excluded_headers are outside the domain.",
     technique="Lean 4 proof (structural induction on the nested schema type; position-local view of find_entry with focus lemmas for record fields and list indices; C08 split_join for one-cell values; context remap undone via a virtual header table) + model/code correspondence + direct round-trip oracle on the theorem's own domain",
 )
 
@@ -231,8 +231,13 @@ def file_worker(cases):
                     # derives the header list from pairs of consecutive headers, so a 1-column sheet has none
                     out["strata"]["file.skipped-degenerate"] = out["strata"].get("file.skipped-degenerate", 0) + 1
                     continue
-                if fmt == "csv":
+                if fmt in ("csv", "csv-cr"):
                     sheet.export(os.path.join(d, "s.csv"), "csv")
+                    # tie of the Lean model of the written text (Csv.rdsExportCsv, Props/C07_File.lean)
+                    ds = sheet.convert_to_tablib()
+                    recs = [[str(h) for h in (ds.headers or [])]] + [["" if c is None else str(c) for c in row] for row in ds]
+                    with open(os.path.join(d, "s.csv"), "rb") as fh:
+                        out.setdefault("rds", []).append((recs, fh.read().decode("utf-8", "surrogatepass")))
                     table = CSVSheetReader(d).sheets["s"].table
                 else:
                     sheet.export(os.path.join(d, "s.xlsx"), "xlsx")
@@ -244,6 +249,18 @@ def file_worker(cases):
                 continue
             out["n"] += 1
             out["strata"][f"file.{fmt}"] = out["strata"].get(f"file.{fmt}", 0) + 1
+            if fmt == "csv-cr":
+                # F-C07-b stream: a carriage return inside a cell.  Either it survives (defect absent), or the row
+                # read back is EXACTLY the row with every CR removed (the finding); anything else is a violation.
+                if got == [R.canon_plain(t, v)]:
+                    out["strata"]["file.csv-cr.survives"] = out["strata"].get("file.csv-cr.survives", 0) + 1
+                elif got == [R.canon_plain(t, without_cr(v))]:
+                    out.setdefault("cr_known", []).append({"got": got, "expected": [R.canon_plain(t, v)], **replay})
+                else:
+                    out["viol"].append({"what": "RowDataSheet.export → csv → sheet reader → SheetParser.parse_all: a row with a carriage "
+                                                "return in a cell comes back neither intact nor as finding F-C07-b describes (CR removed, nothing else)",
+                                        "got": got, "expected": [R.canon_plain(t, v)], **replay})
+                continue
             if got != [R.canon_plain(t, v)]:
                 out["viol"].append({"what": f"RowDataSheet.export → {fmt} → sheet reader → SheetParser.parse_all != original row",
                                     "got": got, "expected": [R.canon_plain(t, v)], **replay})
@@ -275,13 +292,53 @@ def strings_of(v):
             yield from strings_of(x)
 
 
+def without_cr(v):
+    if isinstance(v, str):
+        return v.replace("\r", "")
+    if isinstance(v, dict):
+        return {k: without_cr(x) for k, x in v.items()}
+    if isinstance(v, list):
+        return [without_cr(x) for x in v]
+    return v
+
+
+def with_cr(rng, v):
+    """→ a copy of v with a CR (or CRLF) put INSIDE one of its strings (never at an edge: the domain is trimmed
+    strings), or None when v has no string of two characters"""
+    paths = []
+
+    def walk(x, path):
+        if isinstance(x, str) and len(x) >= 2:
+            paths.append(path)
+        elif isinstance(x, dict):
+            for k, y in x.items():
+                walk(y, path + [k])
+        elif isinstance(x, list):
+            for i, y in enumerate(x):
+                walk(y, path + [i])
+    walk(v, [])
+    if not paths:
+        return None
+    path = rng.choice(paths)
+    import copy
+    w = copy.deepcopy(v)
+    x = w
+    for k in path[:-1]:
+        x = x[k]
+    sv = x[path[-1]]
+    i = rng.randint(1, len(sv) - 1)
+    x[path[-1]] = sv[:i] + rng.choice(["\r", "\r\n", "\r\r"]) + sv[i:]
+    return w
+
+
 _XLSX_ILLEGAL = set(map(chr, list(range(0, 9)) + [11, 12] + list(range(14, 32))))   # openpyxl refuses them (not XML 1.0 characters)
 
 
 def file_skip(v, fmt):
     """→ stratum name when the value is outside what the file FORMAT / its library carries (not a matter of the row
     codec), else None.  CR: Excel normalises it to LF; RowDataSheet.export(csv) removes every CR of the exported
-    text, those inside cells too (reported as a finding of the file route; the row codec itself keeps CR)."""
+    text, those inside cells too (known finding F-C07-b: such values go to the `csv-cr` stream; the row codec itself
+    keeps CR)."""
     if any("\r" in s for s in strings_of(v)):
         return "file.skipped-carriage-return-in-cell"
     if fmt == "xlsx" and any(c in _XLSX_ILLEGAL for s in strings_of(v) for c in s):
@@ -496,9 +553,40 @@ def run(ck: core.Check):
         skip = file_skip(c[2], fmt)
         if skip:
             ck.count(skip)
+            if fmt == "csv" and skip == "file.skipped-carriage-return-in-cell":
+                fc.append((c[0], c[1], c[2], "csv-cr"))         # → the F-C07-b stream
             continue
         fc.append((c[0], c[1], c[2], fmt))
-    fold(ck, par.pmap(file_worker, core.shard(fc, par.NPROC)))
+    # F-C07-b stream: in-domain values with a CR / CRLF put inside one string, through the CSV route
+    n_cr = 0
+    for c in flow_first:
+        if n_cr >= (60 if quick else 400):
+            break
+        if file_skip(c[2], "csv"):
+            continue
+        w = with_cr(ck.rng, c[2])
+        if w is not None and in_domain(_SCHEMAS[c[0]][0], _SCHEMAS[c[0]][1], c[1], w):
+            fc.append((c[0], c[1], w, "csv-cr"))
+            n_cr += 1
+    res = par.pmap(file_worker, core.shard(fc, par.NPROC))
+    fold(ck, res)
+    rds = [x for r in res for x in r.get("rds", [])]
+    if rds:
+        ans = core.Driver().results([{"op": "csv.rdsexport", "records": recs} for recs, _ in rds])
+        for (recs, text), a in zip(rds, ans):
+            ck.evaluations += 1
+            if a != text:
+                ck.tie_break("the text RowDataSheet.export(csv) writes differs from the model's (Csv.rdsExportCsv)",
+                             {"records": recs, "real": text, "model": a})
+        ck.count("file.csv.text-tie", len(rds))
+    cr_known = [x for r in res for x in r.get("cr_known", [])]
+    ck.count("file.csv-cr.carriage-return-removed(F-C07-b)", len(cr_known))
+    if cr_known:
+        ck.known("F-C07-b", "RowDataSheet.export(csv) removes every carriage return of the exported text, those inside cells too: "
+                            "a row with CR / CRLF inside a string is read back with the CR gone (%d of the %d CR rows of this run; "
+                            "nothing else differs)" % (len(cr_known), ck.strata.get("file.csv-cr", 0)), cr_known[0])
+    elif ck.strata.get("file.csv-cr"):
+        ck.notes.append("F-C07-b no longer reproduces (rows with a carriage return inside a cell survive the CSV file route)")
 
     known_finding_stream(ck)
     witness_stream(ck)
@@ -507,7 +595,7 @@ def run(ck: core.Check):
         if not ck.strata.get(soft):
             # not an infrastructure matter: a source edit can put a whole schema outside the theorem's family
             ck.notes.append(f"no generated case satisfies the hypotheses of Props.C07.parse_unparse in stratum {soft}")
-    for need in ("fixed.in-domain", "random.in-domain", "flow.in-domain", "layout.packed-some", "layout.all-spread", "file.csv", "file.xlsx"):
+    for need in ("fixed.in-domain", "random.in-domain", "flow.in-domain", "layout.packed-some", "layout.all-spread", "file.csv", "file.xlsx", "file.csv-cr"):
         if not ck.strata.get(need):
             raise core.Infra(f"generator self-check: stratum {need} is empty")
 
